@@ -180,6 +180,12 @@ class Ctx:
         if len(s) < cap:
             s.add(value)
 
+    def alternating(self, seq):
+        """the same elements, in insertion order / reverse order on alternate calls: an answer must not depend on which key was
+        queried just before (a stale one-entry cache would otherwise be re-primed identically every time)"""
+        self._alt = getattr(self, "_alt", 0) + 1
+        return list(seq) if self._alt % 2 else list(reversed(list(seq)))
+
     def maximum(self, name, value):
         if name not in self.maxima or value > self.maxima[name]:
             self.maxima[name] = value
